@@ -1,6 +1,6 @@
 //go:build verif
 
-package semver
+package conan
 
 // Machine-checked contracts for this package (checked by /verif/govc; see /verif/DESIGN.md).
 // This file contains comments only; it is compiled only under the build tag "verif".
@@ -9,6 +9,12 @@ package semver
 //@   comparator a ~ b                                     [C01]
 //@   ensures result == 0 ==> a == b                       [C01]
 //@   ensures result == (a < b ? -1 : (a > b ? 1 : 0))     [C03 C08]
+
+//@ func naturalCompare
+//@   comparator a ~ b                                     [C01]
+
+//@ func compareVersionParts
+//@   comparator a ~ b                                     [C01]
 
 //@ func comparePrerelease
 //@   comparator a ~ b                                     [C01]
